@@ -81,6 +81,20 @@ func H_C12_NoEffect() {
 			return nil
 		})
 		vAssert("c12.oversize-commit-fails", err != nil)
+	case 5:
+		// an injected write error (possibly after a partial write) at any file-mutation point of the commit
+		vArmFault()
+		err := db.Update(func(tx *Tx) error {
+			for _, o := range ops {
+				_ = applyOp(tx, o)
+			}
+			return nil
+		})
+		if !vDisarmFault() {
+			return // no fault point was chosen on this path
+		}
+		vKnown("KF-C12-io-error-mid-commit", len(ops) >= 2)
+		vAssert("c12.faulted-commit-fails", err != nil)
 	case 3:
 		err := db.View(func(tx *Tx) error {
 			for _, o := range ops {
@@ -147,6 +161,9 @@ func H_C13_Serial() {
 		ops[i] = genOp(kinds)
 	}
 	vReach("c13.start")
+	// Known finding (by design in this version): reads and pops inside a write transaction see only the
+	// committed state, not the transaction's own pending writes; SMove mutates immediately.
+	vKnown("KF-C13-pending-writes-invisible", dependsOnPending(ops))
 	// A: all operations in one transaction
 	type res struct {
 		errNil bool
@@ -184,4 +201,43 @@ func H_C13_Serial() {
 	vAssert("c13.state-matches-sequential", obsSame(oa, ob))
 	dbA.Close()
 	dbB.Close()
+}
+
+// structureOf maps an operation to the structure it touches.
+func structureOf(kind int) int {
+	switch kind {
+	case opPut, opDelete, opPutTTL:
+		return 0
+	case opRPush, opLPush, opLPop, opRPop, opLRem, opLSet, opLTrim:
+		return 1
+	case opSAdd, opSRem, opSPop, opSMove:
+		return 2
+	}
+	return 3
+}
+
+// stateDependent: the call's result or validity is computed from the structure's current contents.
+func stateDependent(kind int) bool {
+	switch kind {
+	case opLPop, opRPop, opLRem, opLSet, opLTrim, opSPop, opSMove, opZPopMax, opZPopMin, opZRem, opZRemRange:
+		return true
+	}
+	return false
+}
+
+// dependsOnPending: some operation depends on the contents of a structure that an earlier operation of
+// the same transaction has written (or SMove, which mutates the set at call time, precedes another set
+// operation).
+func dependsOnPending(ops []*sOp) bool {
+	for j := 1; j < len(ops); j++ {
+		for i := 0; i < j; i++ {
+			if structureOf(ops[i].kind) != structureOf(ops[j].kind) {
+				continue
+			}
+			if stateDependent(ops[j].kind) || ops[i].kind == opSMove {
+				return true
+			}
+		}
+	}
+	return false
 }
